@@ -337,6 +337,8 @@ def import_maps(run, r):
             if not isinstance(c.func, ast.Name):
                 continue
             rr = prog._resolve_name(c.func.id, prog.func_of(c))
+            if rr and rr[0] == 'callable_param' and prog.has_cls(rr[1]):
+                rr = ('class', prog.cls(rr[1]))      # a factory parameter declared to build that class (statechart_class: Callable[..., Statechart])
             if not (rr and rr[0] == 'class'):
                 continue
             ci = rr[1]
